@@ -322,58 +322,7 @@ func Pure(p *core.Prog, r *core.Report) {
 		clause(ok, spec.fn+":zero", p.Pos(f.Pos()), "error exactly on data == "+spec.zero, "the zero-value test of "+spec.fn+" changed")
 	}
 	// ---- Pattern -------------------------------------------------------------------------------
-	if f := p.Func("Pattern"); f != nil {
-		data, pat := paramNamed(f, "data"), paramNamed(f, "pattern")
-		var comp, match *ssa.Call
-		core.EachInstr(f, func(i ssa.Instruction) {
-			if c, ok := i.(*ssa.Call); ok {
-				if g := core.StaticCallee(c); g != nil {
-					switch core.QualName(g) {
-					case "validate.compileRegexp":
-						comp = c
-					case "(*regexp.Regexp).MatchString":
-						match = c
-					}
-				}
-			}
-		})
-		ok := comp != nil && match != nil && comp.Call.Args[0] == ssa.Value(pat) && match.Call.Args[1] == ssa.Value(data)
-		if ok {
-			// receiver of MatchString is the compiled expression of that call
-			ex, isEx := match.Call.Args[0].(*ssa.Extract)
-			ok = isEx && ex.Tuple == ssa.Value(comp) && ex.Index == 0
-		}
-		var errV ssa.Value
-		if comp != nil {
-			for _, ref := range core.Refs(comp) {
-				if e, isE := ref.(*ssa.Extract); isE && e.Index == 1 {
-					errV = e
-				}
-			}
-		}
-		if ok {
-			for _, ri := range returnsOf(f) {
-				onErr := errV != nil && errIsNonNilAt(ri.ret.Block(), errV)
-				noMatch, didMatch := false, false
-				for _, c := range ri.conds {
-					if c.Value == ssa.Value(match) {
-						if c.Sense {
-							didMatch = true
-						} else {
-							noMatch = true
-						}
-					}
-				}
-				switch {
-				case ri.nilRes && !didMatch:
-					ok = false
-				case !ri.nilRes && !(onErr || noMatch):
-					ok = false
-				}
-			}
-		}
-		clause(ok, "Pattern:search", p.Pos(f.Pos()), "compileRegexp(pattern): error on the invalid-pattern edge, otherwise nil exactly when MatchString(data) of that very expression is true", "Pattern no longer reports an invalid pattern, or does not decide by MatchString(data) of the expression compiled from pattern")
-	}
+	patternSearchClause(p, clause)
 	// ---- FormatOf ------------------------------------------------------------------------------
 	if f := p.Func("FormatOf"); f != nil {
 		format, data := paramNamed(f, "format"), paramNamed(f, "data")
@@ -690,4 +639,77 @@ func Pure(p *core.Prog, r *core.Report) {
 	r.Floor("pure_clauses", 20)
 	r.Note("PURE: %d provenance clauses over the 13 exported value helpers and the context plumbing; %d reachable functions checked for purity", nClauses, len(reach))
 	_ = strings.Contains
+}
+
+// patternSearchClause: validate.Pattern decides by MatchString(data) of the expression compiled from the very
+// pattern it was given, and reports an invalid pattern (shared by PURE in C14 and, alone, by C15).
+func patternSearchClause(p *core.Prog, clause func(ok bool, key, pos, good, bad string)) {
+	if f := p.Func("Pattern"); f != nil {
+		data, pat := paramNamed(f, "data"), paramNamed(f, "pattern")
+		var comp, match *ssa.Call
+		core.EachInstr(f, func(i ssa.Instruction) {
+			if c, ok := i.(*ssa.Call); ok {
+				if g := core.StaticCallee(c); g != nil {
+					switch core.QualName(g) {
+					case "validate.compileRegexp":
+						comp = c
+					case "(*regexp.Regexp).MatchString":
+						match = c
+					}
+				}
+			}
+		})
+		ok := comp != nil && match != nil && comp.Call.Args[0] == ssa.Value(pat) && match.Call.Args[1] == ssa.Value(data)
+		if ok {
+			// receiver of MatchString is the compiled expression of that call
+			ex, isEx := match.Call.Args[0].(*ssa.Extract)
+			ok = isEx && ex.Tuple == ssa.Value(comp) && ex.Index == 0
+		}
+		var errV ssa.Value
+		if comp != nil {
+			for _, ref := range core.Refs(comp) {
+				if e, isE := ref.(*ssa.Extract); isE && e.Index == 1 {
+					errV = e
+				}
+			}
+		}
+		if ok {
+			for _, ri := range returnsOf(f) {
+				onErr := errV != nil && errIsNonNilAt(ri.ret.Block(), errV)
+				noMatch, didMatch := false, false
+				for _, c := range ri.conds {
+					if c.Value == ssa.Value(match) {
+						if c.Sense {
+							didMatch = true
+						} else {
+							noMatch = true
+						}
+					}
+				}
+				switch {
+				case ri.nilRes && !didMatch:
+					ok = false
+				case !ri.nilRes && !(onErr || noMatch):
+					ok = false
+				}
+			}
+		}
+		clause(ok, "Pattern:search", p.Pos(f.Pos()), "compileRegexp(pattern): error on the invalid-pattern edge, otherwise nil exactly when MatchString(data) of that very expression is true", "Pattern no longer reports an invalid pattern, or does not decide by MatchString(data) of the expression compiled from pattern")
+	}
+}
+
+// PatternSearch is the Pattern clause of PURE as a rule of its own.
+func PatternSearch(p *core.Prog, r *core.Report) {
+	n := 0
+	patternSearchClause(p, func(ok bool, key, pos, good, bad string) {
+		n++
+		if ok {
+			r.OK("PURE", key, pos, good)
+		} else {
+			r.Bad("PURE", key, pos, bad)
+		}
+	})
+	if n == 0 {
+		r.Unk("PURE", "Pattern:search", "-", "validate.Pattern not found")
+	}
 }
